@@ -11,6 +11,11 @@ UNITS = [
          kind="bounded", bound="exactly 3 tracked trains (loop unwound completely for that size); arbitrary query result per train",
          remove_bodies=[f for f in _st if f != "bidib_state_update_train_available"], extra_flags=["--nondet-static", "--unwind", "5"], covers=1, min_obligations=8,
          stubbed_contracts=["bidib_get_train_position_intern", "bidib_free_train_position_query"]),
+    Unit(name="C08.train_position", src="units/C07/train_position.c", functions=["bidib_get_train_position_intern"], props=["C08"], no_dfcc=True,
+         kind="bounded", bound="2 segments with 0..2 listed decoder addresses each (arbitrary content); loops unwound completely (3 segments did not finish in 300 s)",
+         remove_bodies=[f.name for f in _t.by_file[csrc.REPO + "/src/highlevel/bidib_highlevel_getter.c"] if f.name != "bidib_get_train_position_intern"],
+         extra_flags=["--nondet-static", "--unwind", "5"], covers=4, min_obligations=8, timeout=300,
+         stubbed_contracts=["bidib_state_get_train_ref / bidib_state_get_train_state_ref (NULL or the element)"]),
     Unit(name="C08.bm_occ", src="units/C07/bm_occ.c", functions=["bidib_state_bm_occ"], props=["C08", "C07"], no_dfcc=True,
          kind="bounded", bound="segment lists at most 3 decoder addresses (loops unwound completely for that size)",
          remove_bodies=[f for f in _ss if f != "bidib_state_bm_occ"], extra_flags=["--nondet-static", "--unwind", "12"], covers=2, min_obligations=8, timeout=200,
